@@ -242,6 +242,15 @@ class Interp:
             return len(v.items) > 0
         if isinstance(v, IGen):
             return True
+        if not isinstance(v, (type, types.ModuleType, types.FunctionType)) and self.tainted(v):
+            # truth protocol of an object carrying symbols: __bool__, then __len__ (interpreted when defined in the repo)
+            for nm in ("__bool__", "__len__"):
+                f = _type_lookup(v, nm)
+                if f is not None and is_repo_function(f):
+                    r = run_sync(self.call(f, (v,), {}))
+                    if nm == "__len__":
+                        return self.truth(r != 0 if isinstance(r, int) else lift_bool(term(r) != 0))
+                    return self.truth(r)
         try:
             return bool(v)
         except S.NativeUseOfSymbol as e:
